@@ -29,7 +29,7 @@ Key(s) == <<[app \in {"a1", "a2"} |-> [as \in {"X", "Y", "Z"} |-> <<s.book[app][
             <<s.sup.X, s.sup.Y, s.sup.Z, s.sup.W>>,
             [u \in {"tm", "r1", "r2", "u1"} |-> <<s.bal[u].X, s.bal[u].Y, s.bal[u].Z, s.bal[u].W>>]>>
 Out(a, args, pre, post, ok) ==
-  IF Emit THEN PrintT(<<"T", ToJson([a |-> a, args |-> args, ok |-> ok, pre |-> Key(pre), post |-> Key(post)])>>) ELSE TRUE
+  IF Emit THEN PrintT(<<"T", ToJson([a |-> a, args |-> args, ok |-> ok, pre |-> Key(pre), post |-> IF post = pre THEN "=" ELSE Key(post)])>>) ELSE TRUE
 
 (* every law on every model transition; a violation is tolerated only in the as-is model and only on a named deviation *)
 Check(a, g, r) ==
